@@ -9,11 +9,11 @@ Range(s) == { s[i] : i \in DOMAIN s }
 Init == l = 1 /\ viol = {} /\ hist = 0 /\ qs = {} /\ reps = {} /\ aggs = <<>> /\ cl = <<>> /\ idx = 0
 
 \* observed stake of the submitting reporter: bonded delegations of selectors whose lock has passed
-Stake(e) == NSumSeq([i \in DOMAIN e.seltok |-> IF e.seltok[i].bonded /\ e.seltok[i].locked \preceq e.t THEN e.seltok[i].tok ELSE Zero])
+Stake(e) == NSumSeq([i \in DOMAIN e.seltok |-> IF e.seltok[i].bonded /\ e.seltok[i].lockedn \preceq e.tn THEN e.seltok[i].tok ELSE Zero])
 ReporterOk(e) == e.isrep /\ ~e.jailed /\ e.minstake \preceq Stake(e)
 \* for the SUFFICIENT side only: the stake as the code counts it at the least (finding F-27: for a selector with more
 \* delegations than the validator cap, bonded validators outside the staking module's by-power walk are left out)
-StakeLow(e) == NSumSeq([i \in DOMAIN e.seltok |-> IF e.seltok[i].bonded /\ e.seltok[i].locked \preceq e.t /\ ~(e.seltok[i].cnt > e.seltok[i].maxvals /\ ~e.seltok[i].intop) THEN e.seltok[i].tok ELSE Zero])
+StakeLow(e) == NSumSeq([i \in DOMAIN e.seltok |-> IF e.seltok[i].bonded /\ e.seltok[i].lockedn \preceq e.tn /\ ~(e.seltok[i].cnt > e.seltok[i].maxvals /\ ~e.seltok[i].intop) THEN e.seltok[i].tok ELSE Zero])
 ReporterSurelyOk(e) == e.isrep /\ ~e.jailed /\ e.minstake \preceq StakeLow(e) /\ Pow10(6) \preceq StakeLow(e)
 
 AggsOf(a, q) == IF q \in DOMAIN a THEN Range(a[q]) ELSE {}
